@@ -105,7 +105,13 @@ const Statement * FORStatement::doit(Context& ctx) const
   else
   {
     RT * data = reinterpret_cast<RT*>(ctx.topControlData());
-    /* var is type safe, so it can be read/write without care */
+    /* var is type safe, so it can be read/write without care; a body that
+     * made it null has left the range */
+    if (data->iterator->isNull())
+    {
+      ctx.unstackControl();
+      return _next;
+    }
     Integer cur = *(data->iterator->integer());
     /* the control variable must never wrap around: compare the step with the
      * distance left to the limit, which always fits in 64 bits unsigned */
